@@ -103,17 +103,19 @@ func failingC() templ.Component {
 	return templ.ComponentFunc(func(ctx context.Context, w io.Writer) error { return errors.New("boom") })
 }
 
-// HandlerHistories serves every sequence of up to 3 requests over 4 request kinds through templ.Handler
+// HandlerHistories serves every sequence of up to 3 requests over 5 request kinds through templ.Handler
 // (one process, so anything pooled or cached between requests is shared) and reports the first response
 // that differs from what the request renders alone.
 func HandlerHistories(a *rt.A) templ.Component {
 	return templ.ComponentFunc(func(_ context.Context, w io.Writer) error {
-		kinds := []string{"slot-top", "with-block", "cancel-mid", "fail-mid"}
+		kinds := []string{"slot-direct", "slot-top", "with-block", "cancel-mid", "fail-mid"}
 		serve := func(kind string) string {
 			ctx, cancel := context.WithCancel(context.Background())
 			defer cancel()
 			var c templ.Component
 			switch kind {
+			case "slot-direct":
+				c = cslot() // the served component itself has the slot
 			case "slot-top":
 				c = hSlotTop()
 			case "with-block":
@@ -157,7 +159,7 @@ func HandlerHistories(a *rt.A) templ.Component {
 			io.WriteString(w, m)
 			return nil
 		}
-		if alone["slot-top"] != "200:<s></s>" || alone["with-block"] != "200:<s>hb</s>" {
+		if alone["slot-direct"] != "200:<s></s>" || alone["slot-top"] != "200:<s></s>" || alone["with-block"] != "200:<s>hb</s>" {
 			io.WriteString(w, "MISMATCH reference responses "+alone["slot-top"]+" "+alone["with-block"])
 			return nil
 		}
